@@ -16,7 +16,7 @@ PROP = dict(
     lean_modules=["Octo.Props.C25"],
     required_theorems=["Octo.C25.json_string_roundtrip", "Octo.C25.json_int_exact", "Octo.C25.json_roundtrip",
                        "Octo.C25.json_value_matches", "Octo.C25.json_line", "Octo.C25.json_line_utf8", "Octo.C25.json_line_framing",
-                       "Octo.C25.json_output",
+                       "Octo.C25.json_output", "Octo.C25.json_output_lines",
                        "Octo.C25.csv_field_roundtrip", "Octo.C25.csv_roundtrip", "Octo.C25.csv_value", "Octo.C25.csv_output",
                        "Octo.C25.C25_full", "Octo.C25.raw_string_refuted"],
     nontrivial=_nontrivial,
